@@ -219,3 +219,14 @@ func subSeed(seed int64, k int) int64 {
 	z ^= z >> 31
 	return int64(z >> 1)
 }
+
+// PinnedWitness runs the pinned input of a known finding: if it still fails it is reported
+// through the normal path (and matched by its signature); if not, a note is printed.
+func (c *Check) PinnedWitness(id string, stillFails bool, sig string, w map[string]interface{}) {
+	if stillFails {
+		w["pinned_witness_of"] = id
+		c.Violation(sig, w)
+		return
+	}
+	fmt.Printf("NOTE property=%s: the pinned witness of known finding %s no longer reproduces (the entry in KNOWN_FINDINGS.json may be obsolete)\n", c.Prop, id)
+}
